@@ -413,6 +413,7 @@ err_t beltFMTEncr(u16 dest[], u32 mod, const u16 src[], size_t count,
 	void* state;
 	// проверить входные данные
 	if (count < 2 ||
+		mod < 2 || mod > 65536 ||
 		len != 16 && len != 24 && len != 32 ||
 		!memIsValid(src, 2 * count) ||
 		!memIsNullOrValid(iv, 16) ||
@@ -441,6 +442,7 @@ err_t beltFMTDecr(u16 dest[], u32 mod, const u16 src[], size_t count,
 	void* state;
 	// проверить входные данные
 	if (count < 2 ||
+		mod < 2 || mod > 65536 ||
 		len != 16 && len != 24 && len != 32 ||
 		!memIsValid(src, 2 * count) ||
 		!memIsNullOrValid(iv, 16) ||
